@@ -200,7 +200,10 @@ def _truncation(col, rule="C16.R4"):
     isx = sctx(repo, "SVD", "__init__")
     cut = isx.pnamed("sing_val_cutoff")
     st = [e for e in isx.of_kind("store") if e.target == S.sattr("sing_val_cutoff") and ("cmp", "is", cut, ("const", "None")) in isx.conds(e.nid)]
-    ok = bool(st) and all(e.value == S.fcall("len", SV) for e in st)
+    # a local that was also stored into a field denotes that field
+    back = {e.value: e.target for e in isx.of_kind("store") if S.is_attr(e.target, S.SELF) and e.value is not None
+            and e.value[:1] not in (("const",), ("param",), ("alt",)) and e.target != S.sattr("sing_val_cutoff")}
+    ok = bool(st) and all(S.subst(e.value, back) == S.fcall("len", SV) for e in st)
     col.add(rule, "SVD.__init__#default-cutoff-keeps-all", ok, isx.loc(isx.fn), "by default all singular values are kept", "")
 
 
